@@ -71,9 +71,9 @@ CALLS = {
     "center": {".add_link": None},   # resolved by receiver: see _callee_of_add_link
 }
 
-# the one site that is part of the public API but is NOT required to register on the base class by the theorems
-# (known finding C20-topocentric-ctor-instance-only): create_station compensates for it
-UNCHECKED = ["TopocentricOrientation.__init__"]
+# sites NOT required to register on the base class by the theorems: none since the fix of C20-topocentric-ctor-instance-only
+# (the bare TopocentricOrientation.__init__ used to store its method on the instance only)
+UNCHECKED = []
 
 
 def _find_function(tree, qual):
@@ -339,7 +339,7 @@ def to_lean(sites, methods_idx):
         L.append(f"/-- `{label}` -/")
         L.append(f"def {lean_ident(label)} : List SiteOp := [" + ", ".join(op(o) for o in ops) + "]")
     L.append("def regSites : List (String × List SiteOp) := [" + ", ".join(f'("{lab}", {lean_ident(lab)})' for lab in sites) + "]")
-    L.append("/-- every site except the bare `TopocentricOrientation.__init__` (known finding C20-topocentric-ctor-instance-only) -/")
+    L.append("/-- every site that `sites_register_root` requires to register on the base class: all of them (including the bare `TopocentricOrientation.__init__`) -/")
     L.append("def publicSites : List (String × List SiteOp) := [" + ", ".join(f'("{lab}", {lean_ident(lab)})' for lab in sites if lab not in UNCHECKED) + "]")
     L.append("/-- `def <a>_to_<b>` of the class body of `Orientation`, as indices into `orientNames` -/")
     L.append("def orientMethods : List (Nat × Nat) := [" + ", ".join(f"({a}, {b})" for a, b in methods_idx) + "]")
